@@ -25,6 +25,7 @@ def evalLine (line : String) : String :=
   | "K" :: rest => evalK rest
   | "KS" :: rest => evalKS rest
   | "P" :: rest => evalP rest
+  | "R" :: rest => evalR rest
   | _ => "bad-op"
 
 partial def loop (h : IO.FS.Stream) (out : IO.FS.Stream) : IO Unit := do
